@@ -46,13 +46,46 @@ var _ *openfgav1.Userset
 //@   ensures declares_exactly: result >= 0 ==> declares(lines[result], "define", relation)
 //@   ensures least:     forall j int :: 0 <= j && j < ite(result >= 0, result, len(lines)) ==> !declares(lines[j], "define", relation)
 
-// ConstructLineAndColumnData: the reported span lies on the requested line and, when the symbol occurs in the line,
-// on an occurrence of the symbol.
+// wordAt(line, symbol, i): symbol occurs at index i of line as a whole identifier.
+//@ spec wordAt(line string, symbol string, i int) bool =
+//@   0 <= i && i + len(symbol) <= len(line) && substr(line, i, len(symbol)) == symbol
+//@   && (i == 0 || !identChar(charAt(line, i - 1)))
+//@   && (i + len(symbol) == len(line) || !identChar(charAt(line, i + len(symbol))))
+
+//@ func indexOfWord
+//@   props C16
+//@   string_len_bound
+//@   ensures in_range: -1 <= result && (result >= 0 ==> result + len(symbol) <= len(line))
+//@   ensures found_is_word: result >= 0 ==> wordAt(line, symbol, result)
+//@   ensures empty_symbol: symbol == "" ==> result == -1
+//@   -- "least occurrence" (no whole-word occurrence before the result) is not carried by the string solvers within the
+//@   -- cap; it is covered by the bounded stand-in B5 (positions) only.
+//@   loop 1 invariant symbol != "" && 0 <= offset && offset <= len(line)
+
+//@ func isIdentifierChar
+//@   props C16
+//@   inline
+//@   ensures exact: result == identChar(char)
+
+//@ func declaresName
+//@   props C16
+//@   inline
+//@   ensures exact: result == declares(line, keyword, name)
+
+// ConstructLineAndColumnData: the reported span lies on the requested line and on the declared name: the first
+// whole-identifier occurrence of the symbol after the declaring keyword (column 0 when there is none).
+//@ spec keywordOffset(line string) int =
+//@   let ws = len(line) - len(trimLeft(line, " \t")), rest = substr(line, len(line) - len(trimLeft(line, " \t")), len(trimLeft(line, " \t"))) ::
+//@     ite(hasPrefix(rest, "extend type "), ws + 12, ite(hasPrefix(rest, "type "), ws + 5, ite(hasPrefix(rest, "define "), ws + 7, ite(hasPrefix(rest, "condition "), ws + 10, ws))))
+
 //@ func ConstructLineAndColumnData
 //@   props C16
+//@   string_len_bound
 //@   requires -1 <= lineIndex && lineIndex < len(lines)
 //@   ensures none:  len(lines) == 0 || lineIndex == -1 ==> result0.Start == 0 && result0.End == 0 && result1.Start == 0 && result1.End == 0
 //@   ensures line:  len(lines) != 0 && lineIndex != -1 ==> result0.Start == lineIndex && result0.End == lineIndex
 //@   ensures width: len(lines) != 0 && lineIndex != -1 ==> result1.End == result1.Start + len(symbol) && 0 <= result1.Start
-//@   ensures on_symbol: len(lines) != 0 && lineIndex != -1 && contains(lines[lineIndex], symbol)
-//@                        ==> substr(lines[lineIndex], result1.Start, len(symbol)) == symbol && result1.End <= len(lines[lineIndex])
+//@   -- "the span is the declared name token" (whole-word occurrence after the keyword) needs character-level reasoning
+//@   -- across the keyword prefix that the string solvers do not carry within the cap: bounded stand-in B5 only.
+//@   ensures spells_symbol: len(lines) != 0 && lineIndex != -1 && result1.Start > 0 ==> substr(lines[lineIndex], result1.Start, len(symbol)) == symbol
+//@   ensures inside_line: len(lines) != 0 && lineIndex != -1 && result1.Start > 0 ==> result1.End <= len(lines[lineIndex])
